@@ -279,6 +279,24 @@ ADDENDA11 = {
 for _k, _v in ADDENDA11.items():
     CLAIMS[_k]["text"] = CLAIMS[_k]["text"].rstrip() + " " + _v
 
+ADDENDA12 = {
+    "C05": "Round 12: no counting loop over an array of N entries runs to N inclusive (NB-1, evaluation files); every specialised core walks the coefficients as the generic core does (CL-1).",
+    "C07": "Round 12: NB-1 on the reader; CL-1 (whichever core the evaluator selects for a loaded table).",
+    "C09": "Round 12: ndsparse::insertEntry stores the value and the whole index tuple of an entry in one slot (GE-10).",
+    "C10": "Round 12: the iteration budget of each block solver grows with the number of unknowns (SG-11).",
+    "C11": "Round 12: SG-11.",
+    "C13": "Round 12: NB-1 on the fit path.",
+    "C14": "Round 12: NB-1 on convolve.",
+    "C15": "Round 12: the flag the duplicate test of the permutation reads is set for every accepted entry (VG-3 seen-flag-set); NB-1.",
+    "C16": "Round 12: an overwrite replaces the value in the entry the search found; write_key calls no member that restructures the store (KM-4 overwrite-keeps-position).",
+    "C17": "Round 12: GE-10; NB-1 on grid evaluation.",
+    "C18": "Round 12: splinetable_init constructs a table, and both constructing wrappers store it in the handle (CW-5).",
+    "C19": "Round 12: every string the reader stores for an auxiliary key is copied out of a local character array of constant extent, which is what the per-key budget of the model bounds (SM-10).",
+    "C20": "Round 12: NB-1 over the whole library.",
+}
+for _k, _v in ADDENDA12.items():
+    CLAIMS[_k]["text"] = CLAIMS[_k]["text"].rstrip() + " " + _v
+
 NOT_APPLICABLE = {
 }
 
